@@ -146,6 +146,12 @@ func (g gen) rowRange() bt.Range {
 	if r.Ek != "none" {
 		r.E = advKeys[g.pick(len(advKeys))]
 	}
+	// one in four bounded ranges ends at a key that extends its start key by one byte (a..ab, a..a\x00, a\x00..a\x00\x00):
+	// where "the key itself" and "the keys behind it" are easiest to confuse
+	if r.Sk != "none" && r.Ek != "none" && g.chance(0.25) {
+		pair := [][2]j.B{{j.S("a"), j.S("ab")}, {j.S("a"), j.S("a\x00")}, {j.S("a\x00"), j.S("a\x00\x00")}}[g.pick(3)]
+		r.S, r.E = pair[0], pair[1]
+	}
 	return r
 }
 
@@ -280,4 +286,26 @@ func checkC03(c *Ctx) {
 	c.Extra("engines", allEngines)
 	c.btValidate("C03", allEngines, progs, nil)
 	c.Assume("TLC, the Json community module and the harness's request encoder / chunk decoder are trusted (the raw chunk stream is additionally decoded and checked by the ChunkSM specification on a sample of the reads)")
+}
+
+// genRowSetProgram: a table holding the adversarial keys (or most of them) read through random RowSets of up to three
+// ranges and two keys (used by C17: the engines must agree on range scans, including ranges that end one byte
+// behind their start)
+func genRowSetProgram(r *rand.Rand) []bt.Op {
+	g := gen{r}
+	keys := append([]j.B{}, advKeys...)
+	r.Shuffle(len(keys), func(a, b int) { keys[a], keys[b] = keys[b], keys[a] })
+	keys = keys[:4+g.pick(4)]
+	prog := []bt.Op{createOp(btTable), populateKeys(keys)}
+	for i := 0; i < 14; i++ {
+		var rs bt.RowSet
+		for n := g.pick(4); n > 0; n-- {
+			rs.Ranges = append(rs.Ranges, g.rowRange())
+		}
+		for n := g.pick(3); n > 0; n-- {
+			rs.Keys = append(rs.Keys, advKeys[g.pick(len(advKeys))])
+		}
+		prog = append(prog, bt.Op{Ev: "ReadRows", T: btTable, Rs: rs, Limit: []int{0, 0, 0, 1, 2}[g.pick(5)]})
+	}
+	return prog
 }
